@@ -1,13 +1,12 @@
 #!/bin/bash
 # MANIFEST.setup_cmd: full .vo build of the Coq development from files on disk (offline)
-set -e
-cd /verif/coq
-find theories -name '*.v' | sort > .files.tmp
-coq_makefile -f _CoqProject -o Makefile $(cat .files.tmp) 2>&1 | grep -v conda.cli || true
-tr '\n' ' ' < .files.tmp | sed 's/ $//' | tr ' ' '\n' > .files; rm -f .files.tmp
-# .files must match what harness/main.py writes (newline-joined, no trailing newline)
-python3 - <<'P'
-s=open('/verif/coq/.files').read().rstrip('\n'); open('/verif/coq/.files','w').write(s)
+cd /verif || exit 2
+PYTHONPATH=/verif /venv/bin/python -W ignore - <<'P' 2> >(grep -v conda.cli >&2)
+import sys
+from harness.main import build_coq, hygiene
+ok, log = build_coq()
+print(log[-1500:])
+bad = hygiene()
+print("hygiene:", bad or "clean")
+sys.exit(0 if ok and not bad else 1)
 P
-timeout 3000 make -j16 2>&1 | grep -v conda.cli | tail -5
-echo "setup: coq development built"
